@@ -108,10 +108,15 @@ def run_case(ck, desc):
     #    integer grids), as a table builder would do: array values must obey the property too
     grid = np.unique(np.concatenate([np.round(lo), np.round(hi)]))
     grid = grid[grid >= 15]
-    for arr, label in ((np.concatenate([lo, hi]), "f8"), (grid.astype("i8"), "i8"), (grid.astype("f4"), "f4")):
+    asc = np.concatenate([lo, hi])
+    for arr, label in ((asc, "f8"), (grid.astype("i8"), "i8"), (grid.astype("f4"), "f4"), (asc[::-1].copy(), "f8-descending"), (np.concatenate([asc[::-2], asc[0::2]]), "f8-drawdown-buildup")):
         pf = arr.astype(float)
         rs = np.asarray(oil.solution_gor_Standing(T, arr, *a), dtype=float)
         bo = np.asarray(oil.b_o_Standing(T, arr, *a), dtype=float)
+        if label in ("f8-descending", "f8-drawdown-buildup"):
+            # a depletion (or drawdown / build-up) history: judge the values in pressure order
+            o = np.argsort(pf, kind="stable")
+            pf, rs, bo = pf[o], rs[o], bo[o]
         tol = 1e-9 if label != "f4" else 3e-6
         below = pf < pb * (1 - 1e-6)
         above = pf >= pb * (1 + 1e-6)
